@@ -213,6 +213,12 @@ EXTRA_MODES = {
 NO_TIMEOUT: list = []      # requests issued WITHOUT a timeout: a mirror that accepts the connection and stalls would block such a call for ever
 
 
+def body(url: str) -> bytes:
+    """what a mirror serves: for every other mirror a body of ~100 kB (several chunks for anybody who streams it), otherwise a short one"""
+    tag = b"DATA-" + url.encode()
+    return tag + (b"#" * 100000 + tag if (sum(url.encode()) % 2) else b"")
+
+
 def fake_network(plan):
     """scripted requests.head / requests.get for the mirror plan {url: mode}.  Mode "S" (stall): the mirror accepts and never answers - a request that carries a
     timeout ends with `requests.exceptions.Timeout`, one without would never return (recorded in NO_TIMEOUT, reported by the caller)."""
@@ -236,7 +242,10 @@ def fake_network(plan):
             raise requests.exceptions.Timeout("slow")
         if m in EXTRA_MODES and EXTRA_MODES[m][0] == "head":
             raise EXTRA_MODES[m][1]
-        return FakeResponse(ok=(m != "h"))
+        r = FakeResponse(ok=(m != "h"))
+        if m != "h" and (len(contacted) + sum(url.encode())) % 3 == 0:
+            r.status_code, r.reason = 302, "Found"          # requests.head does not follow redirects: `ok` is True for every status below 400
+        return r
 
     def get(url, stream=None, timeout=None, **kw):
         m = plan[url]
@@ -247,7 +256,7 @@ def fake_network(plan):
         if m in EXTRA_MODES and EXTRA_MODES[m][0] == "get":
             raise EXTRA_MODES[m][1]
         cerr = EXTRA_MODES[m][1] if m in EXTRA_MODES and EXTRA_MODES[m][0] == "content" else None
-        return FakeResponse(ok=True, status_ok=(m != "g"), content=(b"ERROR PAGE " if m == "g" else b"DATA-") + url.encode(), content_error=cerr)
+        return FakeResponse(ok=True, status_ok=(m != "g"), content=(b"ERROR PAGE " + url.encode()) if m == "g" else body(url), content_error=cerr)
 
     return head, get, contacted
 
@@ -380,7 +389,7 @@ def history_cases(out: Outcome, rng, lines, expect, n_cases: int) -> None:
                         outs.append("ok")
                         if first_ok is None:
                             out.violation(f"download(): no DownloadError although every mirror failed ({a})", rep)
-                        want_file = b"DATA-" + urls[first_ok].encode() if first_ok is not None else want_file
+                        want_file = body(urls[first_ok]) if first_ok is not None else want_file
                     except DownloadError:
                         outs.append("DownloadError")
                         if first_ok is not None and not loaded:
@@ -443,7 +452,7 @@ def tok(data, urls, old) -> str:
     if data == old:
         return "[99]"
     for i, u in enumerate(urls):
-        if data == b"DATA-" + u.encode():
+        if data == body(u):
             return f"[{i}]"
     return "raw:" + data[:60].hex()
 
